@@ -60,7 +60,7 @@ pub fn run_shorts(cx: &mut Ctx, idx: u64) {
         eps::pdu_eps(cx, &s, "bare", &what, true);
         eps::meta_ep(cx, &s, "bare", &what);
         for ti in 0..3 {
-            eps::dataset_eps(cx, ti, &s, &what, Depth::Lean);
+            eps::dataset_eps(cx, ti, &s, &what, Depth::Minimal);
         }
         return;
     }
